@@ -172,6 +172,8 @@ pub struct World {
     public: PublicKey,
 }
 
+const EVENT_BUDGET: usize = 30_000;
+
 fn short(id: &[u8]) -> String {
     hex(&id[..8])
 }
@@ -232,7 +234,14 @@ impl World {
         self.lock().rng.gen_range(0..n)
     }
 
+    /// Every asynchronous port passes through here before answering. Once a schedule has
+    /// recorded more events than any sane execution produces (the service is re-asking in a
+    /// loop without letting virtual time pass), each answer costs 10 ms of virtual time, so
+    /// the schedule still terminates and its history can be judged.
     async fn yields(&self) {
+        if self.log.len() > EVENT_BUDGET {
+            tokio::time::sleep(Duration::from_millis(10)).await;
+        }
         let k = {
             let mut i = self.lock();
             let m = self.cfg.yield_max as u32;
